@@ -260,8 +260,19 @@ Step(s, op) ==
             ELSE IF L.lvl = 3 THEN {Out(s, "Error", FALSE, FALSE)}         \* reported at the assignment
             ELSE {Out(stored, "ok", FALSE, TRUE), Out(s, "Error", FALSE, FALSE)}
     [] op.k = "get" ->
+         \* reading an invalid value may or may not report it.  At level 0 ("no validation:
+         \* gfapy will try to accept any input", validation.rst) reading decodes an encoded
+         \* value without checking it: the decoded object replaces the string (chg) and may
+         \* itself be a valid value of the datatype.  From level 1 on, values are "validated
+         \* during parsing or on first access", so an invalid value stays invalid.
          IF Has(L, op.f) /\ IsInvalid(L.fields[op.f])
          THEN {Out(s, "ok", FALSE, FALSE), Out(Reported(s, op.t, {op.f}), "Error", FALSE, FALSE)}
+              \cup (IF L.lvl = 0
+                    THEN {Out([WithCp(s, op.t, [L EXCEPT !.fields[op.f] = Field(@.dt, c, s.nv),
+                                                         !.rep = @ \ {op.f}])
+                                 EXCEPT !.nv = s.nv + 1], "ok", FALSE, TRUE)
+                          : c \in {"valid", L.fields[op.f].cls}}
+                    ELSE {})
          ELSE {Out(s, "ok", FALSE, FALSE)}
     [] op.k = "write" ->
          IF ~Has(L, op.f) THEN {Out(s, "ok", FALSE, FALSE), Out(s, "Error", FALSE, FALSE)}
